@@ -7,7 +7,8 @@ must fire   every independently seeded change under /verif/seeded that is record
 must stay   behaviour-preserving rewrites of the files the property is anchored in are analysed the same way and
 silent      must produce the same verdict as the unchanged tree: (a) every line shifted (a comment block inserted
             after the module docstring), (b) the whole module re-emitted by ast.unparse (comments gone, quotes,
-            parentheses and line breaks normalised).  An alarm here means a rule matches text or positions.
+            parentheses and line breaks normalised), (c) every function-local renamed, (d) the arms of every if/else swapped
+            under a negated test.  An alarm here means a rule matches text or positions.
 
 Results go to the evidence file (coverage.selftest); they never decide the exit status.
 """
@@ -128,6 +129,23 @@ def _rename_locals(src):
     return ast.unparse(tree) + "\n"
 
 
+class _Inv(ast.NodeTransformer):
+    def visit_If(self, node):
+        self.generic_visit(node)
+        if node.orelse and not (len(node.orelse) == 1 and isinstance(node.orelse[0], ast.If)):
+            t = node.test
+            nt = t.operand if isinstance(t, ast.UnaryOp) and isinstance(t.op, ast.Not) else ast.UnaryOp(op=ast.Not(), operand=t)
+            return ast.copy_location(ast.If(test=nt, body=node.orelse, orelse=node.body), node)
+        return node
+
+
+def _invert_ifs(src):
+    """every `if c: A else: B` (no elif) becomes `if not c: B else: A`."""
+    tree = _Inv().visit(ast.parse(src))
+    ast.fix_missing_locations(tree)
+    return ast.unparse(tree) + "\n"
+
+
 def run_selftest(pid, chk, seed=0):
     res = {"mutants": 0, "killed": 0, "refused": 0, "missed": [], "not_applicable": [], "variants": 0, "silent": 0, "alarms": [], "detail": []}
     matrix = {}
@@ -164,7 +182,7 @@ def run_selftest(pid, chk, seed=0):
         if not os.path.exists(path):
             continue
         src = open(path).read()
-        for name, fn in (("shifted-lines", _shift_lines), ("re-emitted-by-ast.unparse", _reemit), ("locals-renamed", _rename_locals)):
+        for name, fn in (("shifted-lines", _shift_lines), ("re-emitted-by-ast.unparse", _reemit), ("locals-renamed", _rename_locals), ("if-else-arms-swapped", _invert_ifs)):
             try:
                 new = fn(src)
                 compile(new, rel, "exec")
@@ -173,6 +191,8 @@ def run_selftest(pid, chk, seed=0):
             res["variants"] += 1
             v, keys, c2 = _verdict(pid, {rel: new})
             same = v == base_v and keys == base_keys and sorted(o["key"] for o in c2.obligations) == base_ob
+            if name == "if-else-arms-swapped":
+                same = v == base_v
             if name == "locals-renamed":
                 # instance keys may legitimately mention a local's name; what matters is the verdict
                 same = v == base_v and len(c2.obligations) == len(base_ob) if v != "refused" else False
